@@ -427,33 +427,56 @@ Proof. intros H1 H2. unfold wf_msg, coll_msg, smsg. cbn. now rewrite H1, H2. Qed
 Lemma wf_ignore cur x : middle_ok cur = true -> middle_ok x = true -> wf_msg (ignore_msg cur x) = true.
 Proof. intros H1 H2. unfold wf_msg, ignore_msg, smsg. cbn. now rewrite H1, H2. Qed.
 
-Lemma wf_welcome n : nick_ok n = true -> wf_msg (welcome_msg n) = true.
+Lemma name_ok_trailing w : name_ok w = true -> forallb trailing_byte w = true.
 Proof.
-  intros H. pose proof (nick_ok_trailing n H) as Ht. apply nick_ok_parts in H as [_ Hm].
-  unfold wf_msg, welcome_msg, smsg. cbn [mtags msrc verb middles trailing tags_ok src_ok map].
+  unfold name_ok, word_ok. intros H. apply andb_true_iff in H as [H _]. apply andb_true_iff in H as [H _].
+  apply andb_true_iff in H as [_ H].
+  apply forallb_forall. intros c Hc. apply word_byte_trailing. exact (forallb_In _ _ _ H Hc).
+Qed.
+
+Lemma wf_welcome_with n tail : nick_ok n = true -> match tail with Some uh => uh_ok uh | None => true end = true ->
+  wf_msg (welcome_msg_with n tail) = true.
+Proof.
+  intros H Ht. pose proof (nick_ok_trailing n H) as Hn. apply nick_ok_parts in H as [_ Hm].
+  unfold wf_msg, welcome_msg_with, smsg. cbn [mtags msrc verb middles trailing tags_ok src_ok map].
   unfold middles_ok. cbn [length Nat.leb forallb snd]. rewrite Hm.
-  unfold trailing_ok. rewrite !forallb_app, Ht.
-  reflexivity.
+  unfold trailing_ok. rewrite !forallb_app, Hn.
+  destruct tail as [[u h]|].
+  - unfold uh_ok in Ht. cbn [fst snd] in Ht. apply andb_true_iff in Ht as [Hu Hh].
+    rewrite !forallb_app, (name_ok_trailing u Hu), (name_ok_trailing h Hh). reflexivity.
+  - reflexivity.
+Qed.
+
+Lemma wf_welcome n : nick_ok n = true -> wf_msg (welcome_msg n) = true.
+Proof. intros H. apply wf_welcome_with; [exact H|reflexivity]. Qed.
+
+Lemma wf_nick_msg_from old uh neu : nick_ok old = true -> uh_ok uh = true -> nick_ok neu = true ->
+  wf_msg (nick_msg_from old uh neu) = true.
+Proof.
+  intros H1 Hu H2. apply nick_ok_parts in H1 as [H1 _]. apply nick_ok_parts in H2 as [_ H2].
+  unfold uh_ok in Hu. apply andb_true_iff in Hu as [Hu Hh].
+  unfold wf_msg, nick_msg_from. cbn. now rewrite H1, H2, Hu, Hh.
 Qed.
 
 Lemma wf_nick_msg old neu : nick_ok old = true -> nick_ok neu = true -> wf_msg (nick_msg old neu) = true.
-Proof.
-  intros H1 H2. apply nick_ok_parts in H1 as [H1 _]. apply nick_ok_parts in H2 as [_ H2].
-  unfold wf_msg, nick_msg. cbn. now rewrite H1, H2.
-Qed.
+Proof. intros H1 H2. apply wf_nick_msg_from; [exact H1|reflexivity|exact H2]. Qed.
 
 Lemma exp_coll cur x :
   l_cmd (expected (coll_msg cur x)) = c_433 /\ l_args (expected (coll_msg cur x)) = [cur; x; s_inuse].
 Proof. split; reflexivity. Qed.
 Lemma exp_ignore cur x : l_cmd (expected (ignore_msg cur x)) = c_432.
 Proof. reflexivity. Qed.
-Lemma exp_welcome n :
-  l_cmd (expected (welcome_msg n)) = c_001 /\ target (expected (welcome_msg n)) = Ok n.
+Lemma exp_welcome_with n tail :
+  l_cmd (expected (welcome_msg_with n tail)) = c_001 /\ target (expected (welcome_msg_with n tail)) = Ok n.
 Proof. split; reflexivity. Qed.
+Lemma exp_nick_from old uh neu :
+  l_cmd (expected (nick_msg_from old uh neu)) = c_NICK /\ l_nick (expected (nick_msg_from old uh neu)) = old
+  /\ l_args (expected (nick_msg_from old uh neu)) = [neu].
+Proof. repeat split; reflexivity. Qed.
 Lemma exp_nick old neu :
   l_cmd (expected (nick_msg old neu)) = c_NICK /\ l_nick (expected (nick_msg old neu)) = old
   /\ l_args (expected (nick_msg old neu)) = [neu].
-Proof. repeat split; reflexivity. Qed.
+Proof. apply exp_nick_from. Qed.
 
 (* ================= the invariant of conformant runs ================= *)
 Lemma in_use_spec srv n : in_use srv n = true <-> In n (sv_others srv).
@@ -544,7 +567,7 @@ Section World.
   Proof.
     intros I En. rewrite wstep_unfold, (srv_pre_enabled _ _ En).
     destruct I as [Inn Isub Ioth Ireg]. pose proof (Build_Inv w Inn Isub Ioth Ireg) as I.
-    destruct e as [|on|y| | |y|a b|a|a|a| |l]; cbn [enabled] in En; cbn [srv_act fst snd].
+    destruct e as [|on tail|y|uh| |y uh|a b|a|a|a| |l]; cbn [enabled] in En; cbn [srv_act fst snd].
     - (* EColl *)
       destruct (sv_pending (w_srv w)) as [|x rest] eqn:Ep; [discriminate|].
       apply andb_true_iff in En as [Hx Hne]. cbn [fst snd].
@@ -562,16 +585,17 @@ Section World.
         apply negb_true_iff in Hne. rewrite Hm. cbn [opt_beq']. rewrite beq_sym, Hne. reflexivity.
     - (* EWelcome *)
       set (n := match on with Some n => n | None => hd [] (sv_pending (w_srv w)) end).
-      assert (Hn : sv_reg (w_srv w) = false /\ nick_ok n = true /\ in_use (w_srv w) n = false).
+      assert (Hn : sv_reg (w_srv w) = false /\ nick_ok n = true /\ in_use (w_srv w) n = false
+                   /\ match tail with Some uh => uh_ok uh | None => true end = true).
       { subst n. destruct on as [n|].
-        - apply andb_true_iff in En as [En H3]. apply andb_true_iff in En as [H1 H2].
+        - apply andb_true_iff in En as [En H4]. apply andb_true_iff in En as [En H3]. apply andb_true_iff in En as [H1 H2].
           apply negb_true_iff in H1, H3. auto.
-        - apply andb_true_iff in En as [H1 En]. apply negb_true_iff in H1.
+        - apply andb_true_iff in En as [En H4]. apply andb_true_iff in En as [H1 En]. apply negb_true_iff in H1.
           destruct (sv_pending (w_srv w)) as [|x rest]; [discriminate|].
           apply andb_true_iff in En as [H2 H3]. apply negb_true_iff in H3. cbn [hd]. auto. }
-      destruct Hn as (Hr & Hok & Hu). apply in_use_false in Hu.
-      rewrite feed_one, step_line by (apply wf_welcome, Hok).
-      destruct (exp_welcome n) as [Ec Et].
+      destruct Hn as (Hr & Hok & Hu & Htl). apply in_use_false in Hu.
+      rewrite feed_one, step_line by (apply wf_welcome_with; assumption).
+      destruct (exp_welcome_with n tail) as [Ec Et].
       unfold NickHandlers.handle, handle_with. rewrite Ec. change (beq c_001 c_001) with true. cbv iota.
       destruct (h_001_spec new_nick (w_cli w) _ n Inn Et) as (_ & _ & Hn' & Ho' & _ & Hm').
       { intros Hin. apply Hu, Isub, Hin. }
@@ -584,13 +608,13 @@ Section World.
       rewrite feed_one. cbn [NickHandlers.client_step client_step_with ho_st done ho_out fst w_cli w_srv].
       constructor; cbn [w_cli w_srv srv_post set_pending sv_reg sv_nick sv_others]; assumption.
     - (* EConfirm *)
-      apply andb_true_iff in En as [Hr En].
+      apply andb_true_iff in En as [En Huh]. apply andb_true_iff in En as [Hr En].
       destruct (sv_pending (w_srv w)) as [|x rest] eqn:Ep; [discriminate|].
       apply andb_true_iff in En as [En Hne]. apply andb_true_iff in En as [Hx Hu].
       apply negb_true_iff in Hne, Hu. apply in_use_false in Hu. apply beq_neq in Hne.
       destruct (Ireg Hr) as (Hm & Hno & Hok). cbn [fst snd].
-      rewrite feed_one, step_line by (apply wf_nick_msg; assumption).
-      destruct (exp_nick (sv_nick (w_srv w)) x) as (Ec & Ek & Ea).
+      rewrite feed_one, step_line by (apply wf_nick_msg_from; assumption).
+      destruct (exp_nick_from (sv_nick (w_srv w)) uh x) as (Ec & Ek & Ea).
       destruct (nick_self_spec new_nick (w_cli w) _ _ x Inn Ec Ek Ea Hm Hne) as (_ & Hn' & Ho' & _ & Hm').
       { intros Hin. apply Hu, Isub, Hin. }
       cbn [fst w_cli w_srv]. constructor; cbn [w_cli w_srv srv_post set_pending set_current sv_reg sv_nick sv_others].
@@ -605,11 +629,11 @@ Section World.
       rewrite handle_noise by reflexivity.
       cbn [ho_st done ho_out fst w_cli w_srv]. constructor; cbn [w_cli w_srv srv_post set_pending sv_reg sv_nick sv_others]; assumption.
     - (* EForce *)
-      apply andb_true_iff in En as [En Hne]. apply andb_true_iff in En as [En Hu]. apply andb_true_iff in En as [Hr Hy].
+      apply andb_true_iff in En as [En Huh]. apply andb_true_iff in En as [En Hne]. apply andb_true_iff in En as [En Hu]. apply andb_true_iff in En as [Hr Hy].
       apply negb_true_iff in Hne, Hu. apply in_use_false in Hu. apply beq_neq in Hne.
       destruct (Ireg Hr) as (Hm & Hno & Hok).
-      rewrite feed_one, step_line by (apply wf_nick_msg; assumption).
-      destruct (exp_nick (sv_nick (w_srv w)) y) as (Ec & Ek & Ea).
+      rewrite feed_one, step_line by (apply wf_nick_msg_from; assumption).
+      destruct (exp_nick_from (sv_nick (w_srv w)) uh y) as (Ec & Ek & Ea).
       destruct (nick_self_spec new_nick (w_cli w) _ _ y Inn Ec Ek Ea Hm Hne) as (_ & Hn' & Ho' & _ & Hm').
       { intros Hin. apply Hu, Isub, Hin. }
       cbn [fst w_cli w_srv]. constructor; cbn [w_cli w_srv srv_post set_pending set_current sv_reg sv_nick sv_others].
@@ -756,18 +780,18 @@ Section Runs.
   Proof.
     intros I. unfold srv_pre. destruct (enabled srv e) eqn:En.
     2:{ destruct e; exact I. }
-    destruct e as [|on|y| | |y|a b|a|a|a| |l]; cbn [enabled] in En; cbn [srv_act fst snd]; try exact I.
+    destruct e as [|on tail|y|uh| |y uh|a b|a|a|a| |l]; cbn [enabled] in En; cbn [srv_act fst snd]; try exact I.
     - destruct (sv_pending srv); exact I.
     - intros _. cbn [set_pending set_current sv_nick]. destruct on as [n|].
-      + apply andb_true_iff in En as [En _]. now apply andb_true_iff in En as [_ En].
-      + apply andb_true_iff in En as [_ En]. destruct (sv_pending srv) as [|x rest]; [discriminate|].
+      + apply andb_true_iff in En as [En _]. apply andb_true_iff in En as [En _]. now apply andb_true_iff in En as [_ En].
+      + apply andb_true_iff in En as [En _]. apply andb_true_iff in En as [_ En]. destruct (sv_pending srv) as [|x rest]; [discriminate|].
         now apply andb_true_iff in En as [En _].
-    - apply andb_true_iff in En as [_ En]. destruct (sv_pending srv) as [|x rest]; [discriminate|].
+    - apply andb_true_iff in En as [En _]. apply andb_true_iff in En as [_ En]. destruct (sv_pending srv) as [|x rest]; [discriminate|].
       intros _. cbn [fst set_pending set_current sv_nick].
       apply andb_true_iff in En as [En _]. now apply andb_true_iff in En as [En _].
     - destruct (sv_pending srv); exact I.
     - intros _. cbn [set_current sv_nick]. apply andb_true_iff in En as [En _]. apply andb_true_iff in En as [En _].
-      now apply andb_true_iff in En as [_ En].
+      apply andb_true_iff in En as [En _]. now apply andb_true_iff in En as [_ En].
   Qed.
 
   Lemma wstep_srv w e : w_srv (fst (wstep w e)) = srv_post (snd (fst (srv_pre (w_srv w) e))) (snd (wstep w e)).
